@@ -197,6 +197,62 @@ def check(model: Model, run: Run) -> None:
     if n1c < 10:
         run.cannot('only %d NLRI classes with a field-wise __eq__ examined' % n1c)
 
+    # ------------------------------------------------------------------ R12 what decoding takes out of the bytes, encoding puts back
+    run.rule(
+        'C15.R12',
+        're-encoding what was decoded gives the same bytes: a wire field that index() reads from BESIDE the packed bytes (a route '
+        'distinguisher the decoder cut out of them) is read by pack_nlri too - otherwise the route goes out without it',
+        floor=1,
+    )
+    n12 = 0
+    for cq in classes:
+        ci = model.classes[cq]
+        ix = model.effective(cq, 'index')
+        pk = model.effective(cq, 'pack_nlri')
+        if ix is None or pk is None or 'index' not in ci.methods and 'pack_nlri' not in ci.methods:
+            continue
+        itxt = norm(ix.node)
+        if '_packed' not in itxt:
+            continue
+        # fields whose BYTES index() adds to the packed bytes (values of the returned concatenation, tests aside)
+        beside = set()
+        il = Loc(model, ix)
+        methods_ = {m_ for c_ in (ci.mro or [cq]) if c_ in model.classes for m_ in model.classes[c_].methods}
+
+        def collect(e: ast.AST, depth: int = 0) -> None:
+            if depth > 16:
+                return
+            if isinstance(e, ast.IfExp):
+                collect(e.body, depth + 1)
+                collect(e.orelse, depth + 1)
+                return
+            if isinstance(e, ast.Name):
+                for v in il.values(e.id):
+                    collect(v, depth + 1)
+                return
+            if isinstance(e, ast.Attribute) and dotted(e.value) == 'self':
+                if e.attr not in ('_packed', 'afi', 'safi', 'path_info', 'cidr') and not e.attr.isupper() and e.attr not in methods_:
+                    beside.add(e.attr)
+                return
+            if isinstance(e, ast.Call) and isinstance(e.func, ast.Name) and e.func.id == 'getattr' and len(e.args) >= 2 and dotted(e.args[0]) == 'self' and isinstance(e.args[1], ast.Constant):
+                beside.add(e.args[1].value)
+                return
+            for c_ in ast.iter_child_nodes(e):
+                if isinstance(c_, ast.expr):
+                    collect(c_, depth + 1)
+
+        for r_ in walk_no_nested(ix.node):
+            if isinstance(r_, ast.Return) and r_.value is not None:
+                collect(r_.value)
+        if not beside:
+            continue
+        n12 += 1
+        ptxt = norm(pk.node)
+        missing = sorted(b for b in beside if ('self.' + b) not in ptxt and ("'%s'" % b) not in ptxt)
+        run.check(not missing, cq, 'pack_nlri (%s) writes the fields index() reads beside the packed bytes %s' % (short(pk.qualname), sorted(beside)), pk.loc(), 'index() tells two routes apart by %s, which is not in the packed bytes, and pack_nlri returns the packed bytes without it: a decoded route is re-encoded as a different NLRI (a bgp-ls-vpn route without its route distinguisher and with a shorter length)' % ', '.join(missing))
+    if n12 < 1:
+        run.cannot('only %d NLRI classes with fields kept beside the packed bytes' % n12)
+
     # ------------------------------------------------------------------ R1d equal routes have equal indexes
     run.rule('C15.R1d', 'equal routes have equal indexes: a class whose index() is the complete packed bytes compares, in a field-wise __eq__, every field it reads out of those bytes', floor=5)
     n1d = 0
